@@ -112,7 +112,7 @@ theorem C12_unknown_session (guard : SplitGuard) (s : State) (sid : Bytes) (r : 
 /-- A session-based create that is accepted: 201, the Location reference is the new session's key in the
     subscriber's session map (so it can be used to address the session), sequence number echoed. -/
 theorem C12_create (guard : SplitGuard) (s : State) (r : Req) (nf : Bytes) (hnf : r.nf = some nf)
-    (hp : hasImsiPrefix r.supi = true) (hone : r.one = false) :
+    (hp : supiAccepted r.supi = true) (hone : r.one = false) :
     (step guard s (.create r)).2.status = 201 ∧
     (step guard s (.create r)).2.loc = some (sessionId r.supi nf s.sessionSeq) ∧
     (step guard s (.create r)).2.seq = some r.seq ∧
